@@ -214,7 +214,9 @@ pub struct DecObs {
 pub trait DynEnc {
     fn add(&mut self, shard: &[u8]) -> Result<(), Error>;
     fn encode_obs(&mut self, probes: &[usize]) -> Result<EncObs, Error>;
-    /// encode and keep the result alive while `f` runs
+    /// encode and read every result through the accessors without copying
+    /// (no heap allocation by the harness): (digest, address of recovery(0))
+    fn encode_touch(&mut self) -> Result<(u64, usize), Error>;
     fn reset(&mut self, k: usize, r: usize, size: usize) -> Result<(), Error>;
     fn into_work(self: Box<Self>) -> Option<EncoderWork>;
 }
@@ -223,6 +225,8 @@ pub trait DynDec {
     fn add_original(&mut self, index: usize, shard: &[u8]) -> Result<(), Error>;
     fn add_recovery(&mut self, index: usize, shard: &[u8]) -> Result<(), Error>;
     fn decode_obs(&mut self, probes: &[usize]) -> Result<DecObs, Error>;
+    /// like `encode_touch`: (digest, address of the first restored shard)
+    fn decode_touch(&mut self) -> Result<(u64, usize), Error>;
     fn reset(&mut self, k: usize, r: usize, size: usize) -> Result<(), Error>;
     fn into_work(self: Box<Self>) -> Option<DecoderWork>;
 }
@@ -248,6 +252,28 @@ fn observe_enc(res: &reed_solomon_simd::EncoderResult, probes: &[usize]) -> EncO
             .collect(),
         addr0: res.recovery(0).map_or(0, |s| s.as_ptr() as usize),
     }
+}
+
+fn touch_enc(res: &reed_solomon_simd::EncoderResult) -> (u64, usize) {
+    let mut h = 0u64;
+    for s in res.recovery_iter() {
+        h = crate::util::hash_bytes(h, s);
+    }
+    (h, res.recovery(0).map_or(0, |s| s.as_ptr() as usize))
+}
+
+fn touch_dec(res: &reed_solomon_simd::DecoderResult) -> (u64, usize) {
+    let mut h = 0u64;
+    let mut addr = 0usize;
+    for (i, s) in res.restored_original_iter() {
+        if addr == 0 {
+            // normalised to original index 0, so that rounds with different
+            // received sets are comparable
+            addr = (s.as_ptr() as usize).wrapping_sub(i * s.len().div_ceil(64) * 64);
+        }
+        h = crate::util::hash_bytes(h ^ i as u64, s);
+    }
+    (h, addr)
 }
 
 fn observe_dec(res: &reed_solomon_simd::DecoderResult, probes: &[usize]) -> DecObs {
@@ -288,6 +314,10 @@ impl<E: Engine + 'static, T: RateEncoder<E>> DynEnc for RE<T, E> {
         let res = self.0.encode()?;
         Ok(observe_enc(&res, probes))
     }
+    fn encode_touch(&mut self) -> Result<(u64, usize), Error> {
+        let res = self.0.encode()?;
+        Ok(touch_enc(&res))
+    }
     fn reset(&mut self, k: usize, r: usize, size: usize) -> Result<(), Error> {
         self.0.reset(k, r, size)
     }
@@ -306,6 +336,10 @@ impl<E: Engine + 'static, T: RateDecoder<E>> DynDec for RD<T, E> {
     fn decode_obs(&mut self, probes: &[usize]) -> Result<DecObs, Error> {
         let res = self.0.decode()?;
         Ok(observe_dec(&res, probes))
+    }
+    fn decode_touch(&mut self) -> Result<(u64, usize), Error> {
+        let res = self.0.decode()?;
+        Ok(touch_dec(&res))
     }
     fn reset(&mut self, k: usize, r: usize, size: usize) -> Result<(), Error> {
         self.0.reset(k, r, size)
@@ -326,6 +360,10 @@ impl DynEnc for WE {
         let res = self.0.encode()?;
         Ok(observe_enc(&res, probes))
     }
+    fn encode_touch(&mut self) -> Result<(u64, usize), Error> {
+        let res = self.0.encode()?;
+        Ok(touch_enc(&res))
+    }
     fn reset(&mut self, k: usize, r: usize, size: usize) -> Result<(), Error> {
         self.0.reset(k, r, size)
     }
@@ -344,6 +382,10 @@ impl DynDec for WD {
     fn decode_obs(&mut self, probes: &[usize]) -> Result<DecObs, Error> {
         let res = self.0.decode()?;
         Ok(observe_dec(&res, probes))
+    }
+    fn decode_touch(&mut self) -> Result<(u64, usize), Error> {
+        let res = self.0.decode()?;
+        Ok(touch_dec(&res))
     }
     fn reset(&mut self, k: usize, r: usize, size: usize) -> Result<(), Error> {
         self.0.reset(k, r, size)
